@@ -80,6 +80,10 @@ def ins_corpus(tier, seed):
         ins_spec("gauss2", s + 5, 100, kills=[500], reparameterisation=None, checkpoint_interval=2),
         ins_spec("rosen2", s + 6, 60, kills=[200, 200], draw_constant=False, save_log_q=True),
         # more than ten levels at the checkpoint: level_10, level_11 ... must be restored in numeric order
+        # resampled (LARS) latent distribution: finalise() re-estimates a buffer of the flow after training; the
+        # weights on disk must be those of the flow in memory (restored_digest:flows)
+        ins_spec("gauss2", s + 8, 60, kills=[260], max_iteration=3,
+                 flow_config={"n_blocks": 2, "n_neurons": 8, "distribution": "lars"}),
         # (constant draws: 80 evaluations per level, the kill at evaluation 1000 falls into iteration 12)
         ins_spec("gauss2", s + 7, 40, kills=[1000], min_iteration=13, max_iteration=13,
                  training_config={"max_epochs": 8, "patience": 3}),
